@@ -1669,17 +1669,20 @@ CMR_ERROR CMRspTestBinary(CMR* cmr, CMR_CHRMAT* matrix, bool* pisSeriesParallel,
   if (!reductions)
     CMR_CALL( CMRallocStackArray(cmr, &localReductions, matrix->numRows + matrix->numColumns) );
 
-  CMR_CALL( decomposeBinarySeriesParallel(cmr, matrix, reductions ? reductions : localReductions, SIZE_MAX,
-    &localNumReductions, preducedSubmatrix, pviolatorSubmatrix, NULL, stats, timeLimit) );
+  CMR_ERROR error = decomposeBinarySeriesParallel(cmr, matrix, reductions ? reductions : localReductions, SIZE_MAX,
+    &localNumReductions, preducedSubmatrix, pviolatorSubmatrix, NULL, stats, timeLimit);
 
-  if (pisSeriesParallel)
-    *pisSeriesParallel = (localNumReductions == matrix->numRows + matrix->numColumns);
-  if (reductions)
-    *pnumReductions = localNumReductions;
-  else
+  if (error == CMR_OKAY)
+  {
+    if (pisSeriesParallel)
+      *pisSeriesParallel = (localNumReductions == matrix->numRows + matrix->numColumns);
+    if (reductions)
+      *pnumReductions = localNumReductions;
+  }
+  if (!reductions)
     CMR_CALL( CMRfreeStackArray(cmr, &localReductions) );
 
-  return CMR_OKAY;
+  return error;
 }
 
 
@@ -1697,17 +1700,20 @@ CMR_ERROR CMRspDecomposeBinary(CMR* cmr, CMR_CHRMAT* matrix, bool* pisSeriesPara
   if (!reductions)
     CMR_CALL( CMRallocStackArray(cmr, &localReductions, matrix->numRows + matrix->numColumns) );
 
-  CMR_CALL( decomposeBinarySeriesParallel(cmr, matrix, reductions ? reductions : localReductions, maxNumReductions,
-    &localNumReductions, preducedSubmatrix, pviolatorSubmatrix, pseparation, stats, timeLimit) );
+  CMR_ERROR error = decomposeBinarySeriesParallel(cmr, matrix, reductions ? reductions : localReductions, maxNumReductions,
+    &localNumReductions, preducedSubmatrix, pviolatorSubmatrix, pseparation, stats, timeLimit);
 
-  if (pisSeriesParallel)
-    *pisSeriesParallel = (localNumReductions == matrix->numRows + matrix->numColumns);
-  if (reductions)
-    *pnumReductions = localNumReductions;
-  else
+  if (error == CMR_OKAY)
+  {
+    if (pisSeriesParallel)
+      *pisSeriesParallel = (localNumReductions == matrix->numRows + matrix->numColumns);
+    if (reductions)
+      *pnumReductions = localNumReductions;
+  }
+  if (!reductions)
     CMR_CALL( CMRfreeStackArray(cmr, &localReductions) );
 
-  return CMR_OKAY;
+  return error;
 }
 
 static
@@ -1953,17 +1959,20 @@ CMR_ERROR CMRspTestTernary(CMR* cmr, CMR_CHRMAT* matrix, bool* pisSeriesParallel
   if (!reductions)
     CMR_CALL( CMRallocStackArray(cmr, &localReductions, matrix->numRows + matrix->numColumns) );
 
-  CMR_CALL( decomposeTernarySeriesParallel(cmr, matrix, reductions ? reductions : localReductions, SIZE_MAX,
-    &localNumReductions, preducedSubmatrix, pviolatorSubmatrix, NULL, stats, timeLimit) );
+  CMR_ERROR error = decomposeTernarySeriesParallel(cmr, matrix, reductions ? reductions : localReductions, SIZE_MAX,
+    &localNumReductions, preducedSubmatrix, pviolatorSubmatrix, NULL, stats, timeLimit);
 
-  if (pisSeriesParallel)
-    *pisSeriesParallel = (localNumReductions == matrix->numRows + matrix->numColumns);
-  if (reductions)
-    *pnumReductions = localNumReductions;
-  else
+  if (error == CMR_OKAY)
+  {
+    if (pisSeriesParallel)
+      *pisSeriesParallel = (localNumReductions == matrix->numRows + matrix->numColumns);
+    if (reductions)
+      *pnumReductions = localNumReductions;
+  }
+  if (!reductions)
     CMR_CALL( CMRfreeStackArray(cmr, &localReductions) );
 
-  return CMR_OKAY;
+  return error;
 }
 
 CMR_ERROR CMRspDecomposeTernary(CMR* cmr, CMR_CHRMAT* matrix, bool* pisSeriesParallel,
@@ -1980,16 +1989,18 @@ CMR_ERROR CMRspDecomposeTernary(CMR* cmr, CMR_CHRMAT* matrix, bool* pisSeriesPar
   if (!reductions)
     CMR_CALL( CMRallocStackArray(cmr, &localReductions, matrix->numRows + matrix->numColumns) );
 
-  CMR_CALL( decomposeTernarySeriesParallel(cmr, matrix, reductions ? reductions : localReductions,
-    maxNumReductions, &localNumReductions, preducedSubmatrix, pviolatorSubmatrix, pseparation, stats, timeLimit) );
+  CMR_ERROR error = decomposeTernarySeriesParallel(cmr, matrix, reductions ? reductions : localReductions,
+    maxNumReductions, &localNumReductions, preducedSubmatrix, pviolatorSubmatrix, pseparation, stats, timeLimit);
 
-  if (pisSeriesParallel)
-    *pisSeriesParallel = (localNumReductions == matrix->numRows + matrix->numColumns);
-
-  if (reductions)
-    *pnumReductions = localNumReductions;
-  else
+  if (error == CMR_OKAY)
+  {
+    if (pisSeriesParallel)
+      *pisSeriesParallel = (localNumReductions == matrix->numRows + matrix->numColumns);
+    if (reductions)
+      *pnumReductions = localNumReductions;
+  }
+  if (!reductions)
     CMR_CALL( CMRfreeStackArray(cmr, &localReductions) );
 
-  return CMR_OKAY;
+  return error;
 }
